@@ -43,13 +43,14 @@ def requests(ctx, res, reqs, impls):
     import puresnmp_plugins.priv.verifstream as VS
 
     rng = ctx.rng
+    # key derivation hashes 1 MiB per password: requests draw from a pool, `keys` sweeps all lengths
+    pool = [(bytes(rng.randrange(1, 256) for _ in range(a)), bytes(rng.randrange(1, 256) for _ in range(b))) for a, b in ((1, 300), (2, 8), (7, 33), (8, 1), (16, 16), (63, 64), (65, 8), (100, 100), (255, 33), (300, 2))]
     for i in range(ctx.budget(500, 12000)):
         name, args = gen_op(rng)
         method = rng.choice(["md5", "sha1"])
         level = rng.choice(["auth", "authpriv", "auth", "noauth"])
-        pwlen = rng.choice([1, 2, 7, 8, 15, 16, 31, 63, 64, 65, 100, 255, 300])
-        authpw = bytes(rng.randrange(1, 256) for _ in range(pwlen))
-        privpw = bytes(rng.randrange(1, 256) for _ in range(rng.choice([1, 8, 33, 300])))
+        authpw, privpw = rng.choice(pool)
+        pwlen = len(authpw)
         engine_id = b"\x80\x00\x1f\x88" + bytes(rng.randrange(256) for _ in range(rng.choice([1, 8, 13, 28])))
         if rng.random() < 0.15:
             engine_id = b"\x80\x00\x02\xb8\x02\xfe\x80" + b"\x00" * 13 + b"\x01"
